@@ -20,7 +20,7 @@ RULE = ("Cases: a valid document of a text format (JSON, JSON5, YAML, XML, HTML,
         "variants) serialised deterministically, one corruption {truncate at byte i | delete byte i | duplicate byte i "
         "(delimiter bytes {}[]:,\"<>/=&; newline, space) | replace byte i by an unbalancing bracket/tag character | flip "
         "byte i to a drawn value}, and the position of the corrupt file (first or second) next to a valid file of the "
-        "same type (optionally with an explicit, more permissive type given for the valid file only); JSON/XML documents also in a multi-line layout with trailing newline; files of nothing but white space; bytes appended after the end of a valid document; documents of 3500 records (70-200 KiB) damaged at their end, start and middle; options rotated over the cases include --match-if / --match-unless, -k -l, -e, -d, --format, -j -ll; a third of the first document's corruptions also arrive on standard input (path - with --from-T / --to-T), half of them right after an invocation in the same process that read the well-formed document from standard input (then stderr must carry a message; the temporary file's name is not checked). Quick: every byte position of 3 fixed documents per format for truncate/delete/duplicate x both "
+        "same type (optionally with an explicit, more permissive type given for the valid file only); JSON/XML documents also in a multi-line layout with trailing newline; files of nothing but white space; bytes appended after the end of a valid document; one byte (raw line break, tab, comma) inserted at every position of the first document; corrupt JSON stored under a more lenient type's extension (.json5, .yml) with --from-json / --to-json given explicitly; documents of 3500 records (70-200 KiB) damaged at their end, start and middle; options rotated over the cases include --match-if / --match-unless, -k -l, -e, -d, --format, -j -ll; a third of the first document's corruptions also arrive on standard input (path - with --from-T / --to-T), half of them right after an invocation in the same process that read the well-formed document from standard input (then stderr must carry a message; the temporary file's name is not checked). Quick: every byte position of 3 fixed documents per format for truncate/delete/duplicate x both "
         "positions; thorough adds 30 generated documents per format and byte flips. A corruption is kept only if the "
         "independent parser of the format rejects it (json.loads; json5.loads; both yaml.SafeLoader and "
         "yaml.CSafeLoader; expat; plistlib.loads); the number discarded as still valid is reported. Oracle: main() "
@@ -134,6 +134,8 @@ def corrupt(data, c):
         return c['bytes'].encode()
     if k == 'truncate':
         return data[:i]
+    if k == 'insert':                   # one extra byte (a raw line break or tab inside a string, a stray comma) at position i
+        return data[:i] + c['bytes'].encode() + data[i:]
     if k == 'append':                   # something after the end of the document
         return data + c['bytes'].encode()
     if k == 'fromend':                  # delete / duplicate the i-th byte counted from the end (large documents)
@@ -199,6 +201,30 @@ def run_job(job, seed, sink):
                                            'explicit': EXPLICIT.get(fmt, [None])[(i // 32) % len(EXPLICIT.get(fmt, [None]))]})
                             i += 1
                 if di == 0:
+                    # one byte inserted at every position: a raw line break / tab (illegal inside strings of the stricter syntaxes), a comma
+                    data0 = serialise(fmt, doc, ascii_only)
+                    for at in range(len(data0) + 1):
+                        for ins in ('\n', ',', '\t'):
+                            for pos in ((at + len(ins)) % 2,):
+                                if i % 16 == job['shard']:
+                                    sink.fast({'fmt': fmt, 'doc': doc, 'ascii': ascii_only, 'corruption': {'kind': 'insert', 'at': at, 'bytes': ins},
+                                               'position': pos, 'opts': OPTS[(i // 16) % len(OPTS)], 'layout': 'compact', 'explicit': None})
+                                i += 1
+                    # the corrupt file carries the extension of a more lenient type while its own, stricter type is given explicitly
+                    # (--from-json x.json5): the explicit type decides, so the file is still malformed
+                    if fmt == 'json':
+                        for ci, c in enumerate(enumerate_corruptions(fmt, doc, ascii_only)):
+                            for ext2 in ('json5', 'yml'):
+                                for pos in (0, 1):
+                                    if i % 16 == job['shard']:
+                                        sink.fast({'fmt': fmt, 'doc': doc, 'ascii': ascii_only, 'corruption': c, 'position': pos, 'opts': '--no-status',
+                                                   'layout': 'compact', 'explicit': None, 'bad_ext': ext2})
+                                    i += 1
+                        for at in range(len(data0) + 1):
+                            if i % 16 == job['shard']:
+                                sink.fast({'fmt': fmt, 'doc': doc, 'ascii': ascii_only, 'corruption': {'kind': 'insert', 'at': at, 'bytes': ','},
+                                           'position': at % 2, 'opts': '--no-status', 'layout': 'compact', 'explicit': None, 'bad_ext': ('json5', 'yml')[at % 2]})
+                            i += 1
                     # the same corruptions arriving on standard input ("-" with an explicit type), right after an invocation
                     # in the same process that read a well-formed document from standard input
                     for ci, c in enumerate(enumerate_corruptions(fmt, doc, ascii_only)):
@@ -279,12 +305,14 @@ def check(case):
         out.skipped = 'still-valid'
         return out
     ext = cli.EXT[fmt]
-    pg, pbad = cli.write_file(good, ext, name='good'), cli.write_file(bad, ext, name='corrupt')
+    pg, pbad = cli.write_file(good, ext, name='good'), cli.write_file(bad, case.get('bad_ext') or ext, name='corrupt')
     try:
         pair = [pbad, pg] if case.get('position', 0) == 0 else [pg, pbad]
         extra = []
         if case.get('explicit'):
             extra = [('--to-' if case.get('position', 0) == 0 else '--from-') + case['explicit']]
+        if case.get('bad_ext'):
+            extra = extra + [('--from-' if case.get('position', 0) == 0 else '--to-') + fmt]
         if case.get('stdin'):
             pos = case.get('position', 0)
             pair = ['-', pg] if pos == 0 else [pg, '-']
@@ -315,6 +343,8 @@ def check(case):
     out.label('fmt:' + fmt, 'kind:' + case['corruption']['kind'], 'pos:%d' % case.get('position', 0), 'opts:' + case.get('opts', '--no-status'))
     if len(good) > 65536:
         out.label('document-over-64KiB')
+    if case.get('bad_ext'):
+        out.label('explicit-strict-type-on-lenient-extension')
     if case.get('stdin'):
         out.label('via-stdin', 'after-valid-stdin-run' if case.get('warm') else 'first-stdin-run')
     out.info = {'rc': r.rc if not isinstance(r.rc, tuple) else list(r.rc), 'stderr': r.err[-120:]}
